@@ -71,6 +71,8 @@ REGIONS = {
     'jsq_preempt': dict(routers=1.0, jsq=True, prio=1.0, preempt=1.0, noblock=True, multiclass=True),
     'sched_split': dict(sched=1.0, noblock=True, split=True),      # the run is made in several calls (pauses inside services / overtime)
     'core_split': dict(split=True),
+    # a pre-emptive Schedule (with zero-server shifts) feeding a small finite node: blocked customers meet shift changes
+    'schedpre_tandem': dict(sched=1.0, schedpre=1.0, block=1.0, tandem=True),
     'spf': dict(spf=1.0),                                          # server priority functions (which free server is taken)
     'spf_sched': dict(spf=1.0, sched=1.0, noblock=True),
     'spf_block': dict(spf=1.0, block=0.8),
@@ -255,6 +257,29 @@ def gen(region, seed, size='quick'):
         T = rng.choice([40, 80, 120, 200] if not big else [120, 200, 400, 800])
         cfg['run'] = ['time', T]
         cfg['max_frames'] = 600 if not big else 3000
+    if f.get('tandem'):
+        n = cfg['n'] = 2
+        m = rng.randint(2, 4)
+        ends = sorted(rng.sample([3, 4, 6, 8, 10, 12, 16, 20, 28, 40], m))
+        cs = [rng.choice([0, 1, 1, 2]) for _ in range(m)]
+        cs[rng.randrange(m)] = 0
+        if all(c == 0 for c in cs):
+            cs[0] = rng.choice([1, 2])
+        cfg['servers'] = [{'kind': 'sched', 'c': cs, 'ends': ends, 'pre': rng.choice(['resume', 'restart', 'resample']), 'offset': rng.choice([0, 0, 2])},
+                          rng.choice([1, 1, 2])]
+        cfg['qcap'] = [rng.choice(['inf', 3, 5]), rng.choice([0, 0, 1])]
+        cfg['syscap'] = 'inf'
+        k = cfg['k']
+        cfg['arr'] = [[_vals(rng, 1, 3, grid=[1, 2, 3, 4]), None] for _ in range(k)]
+        cfg['svc'] = [[_vals(rng, 1, 3, grid=[1, 2, 3, 4, 6]), _vals(rng, 1, 3, grid=[2, 3, 4, 6, 8, 12])] for _ in range(k)]
+        cfg['routing'] = [{'kind': 'tm', 'rows': [[0, rng.choice([8, 8, 6])], [0, 0]]} for _ in range(k)]
+        for key in ('ccm', 'batch', 'baulk', 'ren', 'cct', 'ps', 'ps_thr', 'preempt', 'disc'):
+            if key in cfg and key not in ('disc',):
+                cfg[key] = None
+        if cfg.get('disc') is not None:
+            cfg['disc'] = cfg['disc'][:2] + ['FIFO'] * (2 - len(cfg['disc'][:2]))
+        if cfg.get('spf') is not None:
+            cfg['spf'] = None
     if f.get('split') and cfg['run'][0] == 'time':
         T = cfg['run'][1]
         cuts = sorted(set(rng.choice([x for x in (3, 5, 7, 9, 11, 14, 18, 22, 27, 33, 45, 60) if x < T]) for _ in range(rng.randint(1, 4))))
